@@ -10,8 +10,9 @@
 //!   panic=<0|1>      the REAL serializer panicked (then FAIL.panic=<hex message> when dom=1)
 //!   err=<0|1>        the serializer returned an error (then FAIL.error=<hex message> when dom=1: an expressible
 //!                    dataset must be serialised)
-//!   hang=1           the REAL code (serializer / parser) did not answer within REQ_TIMEOUT seconds (watched worker
-//!                    thread; FAIL.hang=<seconds> when dom=1); after MAX_HANGS such requests the rest is `skipped=1`
+//!   hang=1           the REAL code did not answer within REQ_TIMEOUT seconds (it runs in a watched child process, see
+//!                    "the watchdog"; FAIL.hang=<seconds> when dom=1); abort=1 [FAIL.abort=<status>] the child died on
+//!                    this request; after MAX_INCIDENTS such requests the rest is answered `skipped=1`
 //!   json=<canon>     canonical rendering of the JSON text (see `canon`), parsed with json-syntax
 //!   kept=<n>         number of distinct input quads that `is_jsonld` (re-stated here on abstract terms) keeps
 //!   rt=<0|1>         REAL JsonLdParser on the REAL output is isomorphic (exact test below) to the kept quads
@@ -170,28 +171,65 @@ fn rename_q(q: &Q, m: &BTreeMap<String, String>) -> Q {
     Q { s: rename(&q.s, m), p: q.p.clone(), o: rename(&q.o, m), g: q.g.as_ref().map(|g| rename(g, m)) }
 }
 
-/// blank-node-agnostic signature of a blank node: the multiset of its occurrences with the
-/// other blank nodes replaced by a constant
-fn signature(b: &str, qs: &BTreeSet<Q>) -> Vec<String> {
-    let mask = |t: &T| match t {
-        T::Bnode(x) if x == b => "@".to_string(),
-        T::Bnode(_) => "*".to_string(),
-        _ => t.render(),
-    };
-    let mut v: Vec<String> = qs
-        .iter()
-        .filter(|q| {
-            let mut s = BTreeSet::new();
-            bnodes_of(q, &mut s);
-            s.contains(b)
-        })
-        .map(|q| format!("{} {} {} {}", mask(&q.s), q.p.render(), mask(&q.o), q.g.as_ref().map(mask).unwrap_or("-".into())))
-        .collect();
-    v.sort();
-    v
+/// colour refinement on the two datasets at once: colour of a blank node = rank of the sorted list of its
+/// occurrences, the other blank nodes replaced by THEIR colour of the previous round (0 at the start), among all
+/// such lists of both datasets.  Isomorphic datasets get the same colour multiset; the cells of a long list are
+/// told apart by their distance to the ends, so the search below rarely has to backtrack.
+fn colours(a: &BTreeSet<Q>, b: &BTreeSet<Q>, ba: &[String], bb: &[String]) -> (Vec<usize>, Vec<usize>) {
+    fn occ<'x>(qs: &'x BTreeSet<Q>, labels: &[String]) -> Vec<Vec<&'x Q>> {
+        labels
+            .iter()
+            .map(|l| {
+                qs.iter()
+                    .filter(|q| {
+                        let mut s = BTreeSet::new();
+                        bnodes_of(q, &mut s);
+                        s.contains(l)
+                    })
+                    .collect()
+            })
+            .collect()
+    }
+    fn sigs(labels: &[String], occ: &[Vec<&Q>], col: &BTreeMap<&str, usize>) -> Vec<Vec<String>> {
+        labels
+            .iter()
+            .enumerate()
+            .map(|(i, me)| {
+                let mask = |t: &T| match t {
+                    T::Bnode(x) if x == me => "@".to_string(),
+                    T::Bnode(x) => format!("#{}", col.get(x.as_str()).copied().unwrap_or(0)),
+                    _ => t.render(),
+                };
+                let mut v: Vec<String> = occ[i]
+                    .iter()
+                    .map(|q| format!("{} {} {} {}", mask(&q.s), q.p.render(), mask(&q.o), q.g.as_ref().map(mask).unwrap_or("-".into())))
+                    .collect();
+                v.sort();
+                v
+            })
+            .collect()
+    }
+    let (oa, ob) = (occ(a, ba), occ(b, bb));
+    let mut ca: Vec<usize> = vec![0; ba.len()];
+    let mut cb: Vec<usize> = vec![0; bb.len()];
+    let mut classes = 1;
+    for _round in 0..=ba.len().max(bb.len()) {
+        let ma: BTreeMap<&str, usize> = ba.iter().map(|s| s.as_str()).zip(ca.iter().copied()).collect();
+        let mb: BTreeMap<&str, usize> = bb.iter().map(|s| s.as_str()).zip(cb.iter().copied()).collect();
+        let (sa, sb) = (sigs(ba, &oa, &ma), sigs(bb, &ob, &mb));
+        let all: BTreeSet<&Vec<String>> = sa.iter().chain(sb.iter()).collect();
+        let rank: BTreeMap<&Vec<String>, usize> = all.iter().enumerate().map(|(i, v)| (*v, i)).collect();
+        ca = sa.iter().map(|v| rank[v]).collect();
+        cb = sb.iter().map(|v| rank[v]).collect();
+        if all.len() <= classes {
+            break;
+        }
+        classes = all.len();
+    }
+    (ca, cb)
 }
 
-/// Some(true/false) exact; None = too many blank nodes for the brute force
+/// Some(true/false) exact; None = the search budget ran out (no verdict)
 pub fn isomorphic(a: &BTreeSet<Q>, b: &BTreeSet<Q>) -> Option<bool> {
     if a.len() != b.len() {
         return Some(false);
@@ -204,8 +242,7 @@ pub fn isomorphic(a: &BTreeSet<Q>, b: &BTreeSet<Q>) -> Option<bool> {
     }
     let ba: Vec<String> = ba.into_iter().collect();
     let bb: Vec<String> = bb.into_iter().collect();
-    let sa: Vec<Vec<String>> = ba.iter().map(|x| signature(x, a)).collect();
-    let sb: Vec<Vec<String>> = bb.iter().map(|x| signature(x, b)).collect();
+    let (sa, sb) = colours(a, b, &ba, &bb);
     {
         let (mut x, mut y) = (sa.clone(), sb.clone());
         x.sort();
@@ -214,17 +251,17 @@ pub fn isomorphic(a: &BTreeSet<Q>, b: &BTreeSet<Q>) -> Option<bool> {
             return Some(false);
         }
     }
-    // backtracking over signature-compatible bijections; every complete assignment is checked exactly
+    // backtracking over colour-compatible bijections; every complete assignment is checked exactly
     // (the budget counts every node of the search tree; when it runs out the verdict is `unknown`, never a failure)
-    let mut budget: u64 = 400_000;
+    let mut budget: u64 = 150_000;
     let mut used = vec![false; bb.len()];
     let mut m = BTreeMap::new();
     fn go(
         i: usize,
         ba: &[String],
         bb: &[String],
-        sa: &[Vec<String>],
-        sb: &[Vec<String>],
+        sa: &[usize],
+        sb: &[usize],
         used: &mut Vec<bool>,
         m: &mut BTreeMap<String, String>,
         a: &BTreeSet<Q>,
@@ -343,8 +380,7 @@ fn options(r: &Req) -> JsonLdOptions<sophia_jsonld::loader_factory::DefaultLoade
 /// outcome of a call into the real code: `Err` = it panicked (message), `Ok(Err)` = it returned an error
 type Outcome<X> = Result<Result<X, String>, String>;
 
-/// everything the REAL code says about one request; computed on the watched worker thread, so it holds
-/// plain data only.  The harness' own (possibly expensive) isomorphism test is NOT part of it.
+/// everything the REAL code says about one request
 struct Real {
     ser: Outcome<String>,
     /// canonical rendering of the serializer's text (`unparsable` when it is not JSON)
@@ -370,7 +406,7 @@ fn parse_back(req: &Req, txt: &str) -> Outcome<BTreeSet<Q>> {
 
 /// the dataset a `Jsonifier` is used for before the request's own dataset: lists, a named graph, a blank graph,
 /// labels and IRIs of the generator's alphabets (whatever leaks from it into the second document shows)
-fn warmup() -> Vec<Q> {
+pub fn warmup() -> Vec<Q> {
     let i = |s: &str| T::Iri(s.to_string());
     let b = |s: &str| T::Bnode(s.to_string());
     let r = |s: &str| T::Iri(format!("{}{}", generator::RDF, s));
@@ -420,7 +456,11 @@ fn run_real(req: &Req) -> Real {
     let wds: Vec<Spog<SimpleTerm<'static>>> = warmup().iter().map(tgen::q_to_simple).collect();
     let jfy: Outcome<(String, String)> = catch(std::panic::AssertUnwindSafe(|| {
         let mut j = Jsonifier::new_jsonifier_with_options(options(req));
-        j.serialize_dataset(&wds).map_err(|e| format!("warmup: {}", e))?;
+        // (a failure on the warm-up dataset is not this request's: that dataset is a corpus case of its own)
+        let warm = catch(std::panic::AssertUnwindSafe(|| j.serialize_dataset(&wds).is_ok()));
+        if warm != Ok(true) {
+            j = Jsonifier::new_jsonifier_with_options(options(req));
+        }
         j.serialize_dataset(&ds).map_err(|e| e.to_string())?;
         let v = j.to_json();
         Ok((canon(&v, false), v.compact_print().to_string()))
@@ -438,84 +478,149 @@ fn run_real(req: &Req) -> Real {
 
 // ------------------------------------------------------------------ the watchdog
 //
-// The real code runs on a worker thread; a request that is not answered within REQ_TIMEOUT seconds is reported as
-// `hang=1` for THAT request (the thread is abandoned, a new worker takes over), instead of stalling the whole run
-// until the outer timeout of check.py.  REQ_TIMEOUT is four orders of magnitude above the time a request takes
-// (milliseconds), so that a loaded machine cannot turn a slow case into a report.
+// `vh-c12 exec` does not run the real code itself: it feeds each request to a child process (`vh-c12 worker`, same
+// binary) and waits for its reply.  A request that is not answered within REQ_TIMEOUT seconds is reported as
+// `hang=1` for THAT request and the child is killed and replaced; a child that dies (stack overflow, abort, out of
+// memory) is reported as `abort=1` for the request it was processing.  The run goes on, so the other failing
+// inputs of the same run are still found, and check.py never has to guess from a stalled pipe.  REQ_TIMEOUT is
+// four orders of magnitude above what a request takes (milliseconds; the harness' own isomorphism search is
+// bounded by a node budget), so that a loaded machine cannot turn a slow case into a report.
 
 const REQ_TIMEOUT_S: u64 = 60;
-const MAX_HANGS: usize = 2;
+/// once this many requests have hung, the timeout drops to SHORT_TIMEOUT_S ...
+const HANGS_BEFORE_SHORT: usize = 2;
+const SHORT_TIMEOUT_S: u64 = 5;
+/// ... and after this many hangs / aborts the rest of the run is answered `skipped=1`
+const MAX_INCIDENTS: usize = 12;
 
-struct Worker {
-    tx: mpsc::Sender<Req>,
-    rx: mpsc::Receiver<Real>,
+struct Child {
+    proc: std::process::Child,
+    stdin: std::process::ChildStdin,
+    replies: mpsc::Receiver<String>,
 }
 
-fn spawn_worker() -> Worker {
-    let (tx, wrx) = mpsc::channel::<Req>();
-    let (wtx, rx) = mpsc::channel::<Real>();
-    std::thread::Builder::new()
-        .stack_size(64 << 20)
-        .spawn(move || {
-            while let Ok(req) = wrx.recv() {
-                if wtx.send(run_real(&req)).is_err() {
-                    return;
+fn spawn_child() -> Option<Child> {
+    use std::io::BufRead;
+    let exe = std::env::current_exe().ok()?;
+    let mut proc = std::process::Command::new(exe)
+        .arg("worker")
+        .stdin(std::process::Stdio::piped())
+        .stdout(std::process::Stdio::piped())
+        .spawn()
+        .ok()?;
+    let stdin = proc.stdin.take()?;
+    let stdout = proc.stdout.take()?;
+    let (tx, replies) = mpsc::channel::<String>();
+    std::thread::spawn(move || {
+        for line in std::io::BufReader::new(stdout).lines() {
+            match line {
+                Ok(l) => {
+                    if tx.send(l).is_err() {
+                        return;
+                    }
                 }
+                Err(_) => return,
             }
-        })
-        .expect("worker thread");
-    Worker { tx, rx }
+        }
+    });
+    Some(Child { proc, stdin, replies })
 }
 
-static WORKER: Mutex<Option<Worker>> = Mutex::new(None);
-static HANGS: Mutex<usize> = Mutex::new(0);
+static CHILD: Mutex<Option<Child>> = Mutex::new(None);
+/// (hangs, aborts)
+static INCIDENTS: Mutex<(usize, usize)> = Mutex::new((0, 0));
 
-fn timeout_s() -> u64 {
-    std::env::var("VH_C12_REQ_TIMEOUT").ok().and_then(|s| s.parse().ok()).unwrap_or(REQ_TIMEOUT_S)
+fn timeout_s(hangs: usize) -> u64 {
+    let long = std::env::var("VH_C12_REQ_TIMEOUT").ok().and_then(|s| s.parse().ok()).unwrap_or(REQ_TIMEOUT_S);
+    if hangs >= HANGS_BEFORE_SHORT { long.min(SHORT_TIMEOUT_S) } else { long }
 }
 
-enum Watched {
-    Done(Real),
-    Hang(u64),
-    Skipped,
-}
-
-fn watched(req: &Req) -> Watched {
-    if *HANGS.lock().unwrap() >= MAX_HANGS {
-        return Watched::Skipped;
+/// `dom=` of a request line, for the replies the supervisor has to write itself
+fn dom_of(line: &str) -> Option<bool> {
+    let f: Vec<&str> = line.split_whitespace().collect();
+    if !matches!(f.first(), Some(&"s") | Some(&"d")) {
+        return None;
     }
-    let mut guard = WORKER.lock().unwrap();
-    for _attempt in 0..2 {
+    parse_req(&f).map(|r| r.dom)
+}
+
+/// `exec` of the harness protocol: supervise the worker
+pub fn exec(line: &str) -> String {
+    use std::io::Write;
+    let Some(dom) = dom_of(line) else { return "bad-op".into() };
+    let (hangs, aborts) = *INCIDENTS.lock().unwrap();
+    if hangs + aborts >= MAX_INCIDENTS {
+        return format!("dom={} skipped=1", dom as u8);
+    }
+    let mut guard = CHILD.lock().unwrap();
+    // a child that dies is given a second chance on the same request (a kill from outside - memory pressure on a
+    // shared machine - must not be charged to the request); only a request that kills two fresh children is reported
+    let mut last_status = String::new();
+    for attempt in 0..2 {
         if guard.is_none() {
-            *guard = Some(spawn_worker());
+            *guard = spawn_child();
         }
-        let w = guard.as_ref().unwrap();
-        if w.tx.send(req.clone()).is_err() {
-            *guard = None; // the worker is gone (cannot happen: panics are caught inside): start another one
-            continue;
-        }
-        let t = timeout_s();
-        match w.rx.recv_timeout(Duration::from_secs(t)) {
-            Ok(r) => return Watched::Done(r),
+        let Some(child) = guard.as_mut() else {
+            // no child process available: run in this process (no watchdog)
+            return exec_inner(line);
+        };
+        let sent = writeln!(child.stdin, "{}", line).and_then(|_| child.stdin.flush());
+        let t = timeout_s(hangs);
+        let got = if sent.is_ok() { child.replies.recv_timeout(Duration::from_secs(t)) } else { Err(mpsc::RecvTimeoutError::Disconnected) };
+        match got {
+            Ok(reply) => return reply,
             Err(mpsc::RecvTimeoutError::Timeout) => {
-                *guard = None; // abandon the thread that is still running the request
-                *HANGS.lock().unwrap() += 1;
-                return Watched::Hang(t);
+                let _ = child.proc.kill();
+                let _ = child.proc.wait();
+                *guard = None;
+                INCIDENTS.lock().unwrap().0 += 1;
+                let mut out = format!("dom={} hang=1", dom as u8);
+                if dom {
+                    out += &format!(" FAIL.hang={}s", t);
+                }
+                return out;
             }
             Err(mpsc::RecvTimeoutError::Disconnected) => {
+                last_status = child.proc.wait().map(|s| s.to_string()).unwrap_or_default();
                 *guard = None;
-                continue;
+                if attempt == 0 {
+                    continue;
+                }
             }
         }
     }
-    Watched::Hang(0)
+    INCIDENTS.lock().unwrap().1 += 1;
+    let mut out = format!("dom={} abort=1", dom as u8);
+    if dom {
+        out += &format!(" FAIL.abort={}", hex(&last_status));
+    }
+    out
+}
+
+/// `vh-c12 worker`: one reply line per request line, the real code runs here
+fn worker_loop() {
+    use std::io::{BufRead, Write};
+    std::panic::set_hook(Box::new(|_| {}));
+    let stdin = std::io::stdin();
+    let mut out = std::io::stdout();
+    for line in stdin.lock().lines() {
+        let Ok(line) = line else { return };
+        let r = match catch(std::panic::AssertUnwindSafe(|| exec_inner(&line))) {
+            Ok(r) => r,
+            Err(m) => format!("panic={}", hex(&m)),
+        };
+        if writeln!(out, "{}", r).and_then(|_| out.flush()).is_err() {
+            return;
+        }
+    }
 }
 
 fn short(s: &str, n: usize) -> String {
     hex(&s.chars().take(n).collect::<String>())
 }
 
-pub fn exec(line: &str) -> String {
+/// everything for one request, in this process
+pub fn exec_inner(line: &str) -> String {
     let f: Vec<&str> = line.split_whitespace().collect();
     if !matches!(f.first(), Some(&"s") | Some(&"d")) {
         return "bad-op".into();
@@ -525,17 +630,7 @@ pub fn exec(line: &str) -> String {
     let debug = req.debug;
     let kept: BTreeSet<Q> = req.quads.iter().filter(|q| expressible(q)).cloned().collect();
     let mut out = format!("dom={}", dom as u8);
-    let real = match watched(&req) {
-        Watched::Done(r) => r,
-        Watched::Hang(t) => {
-            out += " hang=1";
-            if dom {
-                out += &format!(" FAIL.hang={}s", t);
-            }
-            return out;
-        }
-        Watched::Skipped => return out + " skipped=1",
-    };
+    let real = run_real(&req);
     match &real.ser {
         Err(msg) => {
             out += " panic=1";
@@ -636,5 +731,9 @@ pub fn exec(line: &str) -> String {
 }
 
 fn main() {
+    if std::env::args().nth(1).as_deref() == Some("worker") {
+        worker_loop();
+        return;
+    }
     vhcore::main_loop(generate, exec);
 }
